@@ -657,9 +657,11 @@ class Gen:
             bound = r.randrange(1, 5)
             inner_env = env + [(i, INT)]
             body = self.block(inner_env, depth + 1, r.randrange(1, 3), True, ret)
+            cont_ok = k < 0.6 or (k < 0.8 and self.vars_of(env, SLICE_INT))     # not in the `for cond` form: `continue` would skip i++
             if r.random() < 0.3:
                 self.feat("break-continue")
-                body = [("if", None, ("bin", "==", ident(i), lit(r.randrange(0, 3))), [(r.choice(["break", "continue"]),)], None)] + body
+                body = [("if", None, ("bin", "==", ident(i), lit(r.randrange(0, 3))),
+                         [(r.choice(["break", "continue"]) if cont_ok else "break",)], None)] + body
             if k < 0.4:
                 self.feat("for3")
                 return [("for3", ("define", [i], [lit(0)]), ("bin", "<", ident(i), lit(bound)), ("incdec", ident(i), "++"), body)]
